@@ -31,6 +31,19 @@ def tevs (h : List Call) : List TEv := h.filterMap tev
 @[simp] theorem tev_progress : tev .progress = none := rfl
 @[simp] theorem tev_setFailfast (b : Bool) : tev (.setFailfast b) = none := rfl
 
+@[simp] theorem tevs_nil : tevs [] = [] := rfl
+@[simp] theorem tevs_c_run (cs : List Call) : tevs (.startTestRun :: cs) = .run :: tevs cs := rfl
+@[simp] theorem tevs_c_stopRun (cs : List Call) : tevs (.stopTestRun :: cs) = tevs cs := rfl
+@[simp] theorem tevs_c_start (t : Nat) (cs : List Call) : tevs (.startTest t :: cs) = .start t :: tevs cs := rfl
+@[simp] theorem tevs_c_stop (t : Nat) (cs : List Call) : tevs (.stopTest t :: cs) = .stop t :: tevs cs := rfl
+@[simp] theorem tevs_c_tags (n g : TagSet) (cs : List Call) : tevs (.tags n g :: cs) = .tags n g :: tevs cs := rfl
+@[simp] theorem tevs_c_add (k : Kind) (t : Nat) (a : Arg) (cs : List Call) : tevs (.add k t a :: cs) = .out t :: tevs cs := rfl
+@[simp] theorem tevs_c_time (d : TimeV) (cs : List Call) : tevs (.time d :: cs) = tevs cs := rfl
+@[simp] theorem tevs_c_stopc (cs : List Call) : tevs (.stop :: cs) = tevs cs := rfl
+@[simp] theorem tevs_c_done (cs : List Call) : tevs (.done :: cs) = tevs cs := rfl
+@[simp] theorem tevs_c_progress (cs : List Call) : tevs (.progress :: cs) = tevs cs := rfl
+@[simp] theorem tevs_c_setFailfast (b : Bool) (cs : List Call) : tevs (.setFailfast b :: cs) = tevs cs := rfl
+
 theorem tevs_append (a b : List Call) : tevs (a ++ b) = tevs a ++ tevs b := by simp [tevs]
 
 /-- the stack-of-sets semantics on the small alphabet -/
